@@ -1,6 +1,6 @@
 (** Correspondence glue for C17: replay the loop model on the oracle answers recorded from one real
     fix run and compare the control decisions (batches accepted/rejected, pass ends, final tree). *)
-From Sq Require Import Base.Corr Fix.Model.
+From Sq Require Import Base.Corr Fix.Model Fix.MaskModel.
 
 (* trees, keys, rules and fix batches are numbers assigned by the harness:
    crawl table: ((rule, tree), resulting tree); key table: (tree, key) *)
@@ -46,3 +46,20 @@ Definition check_loop (a : args_t) (e : obs_t) : bool :=
   let '(eb, ep, et) := e in
   list_eqb b4_eqb mb eb && list_eqb b3_eqb mp ep && (mt =? et).
 Definition case_t_loop : Type := (N * args_t * obs_t)%type.
+
+(** Group [mask]: the mask step of the loop on the initial tree. args: per rule (registry order) the raw results of
+    [Rule::crawl] as (silenced by the file's IgnoreMask, carries fixes). observed: the number of violations of each
+    rule that lint reports, and the rule of the first batch of the fix run (if any). *)
+Definition margs_t : Type := list (list (bool * bool)).
+Definition mobs_t : Type := (list N * option N)%type.
+Definition mask_model (tab : margs_t) : mobs_t :=
+  let rs := index_list 0 tab in
+  let raw (r : N) (_ : unit) := nth (N.to_nat r) tab [] in
+  let fixes (e : bool * bool) : list unit := if snd e then [tt] else [] in
+  (map (fun r => N.of_nat (length (kept unit N (bool * bool) raw fst r tt))) rs,
+   first_fixing unit N (bool * bool) unit raw fst fixes rs tt).
+Definition check_mask (a : margs_t) (e : mobs_t) : bool :=
+  let '(mc, mf) := mask_model a in
+  let '(ec, ef) := e in
+  list_eqb N.eqb mc ec && opt_eqb N.eqb mf ef.
+Definition case_t_mask : Type := (N * margs_t * mobs_t)%type.
